@@ -662,6 +662,7 @@ impl<T: Eq + Hash> FrequentItemsSketch<T> {
             final(self).offset == old(self).offset && upd_exact(old(self).hash_map, final(self).hash_map, item, count),
     { self.update_with_count(item, count) }
 
+    #[verifier::spinoff_prover]
     fn serialize_inner(
         &self,
         count_serialize_size: impl Fn(&[T]) -> usize,
@@ -746,6 +747,7 @@ impl<T: Eq + Hash> FrequentItemsSketch<T> {
 
         bytes.into_bytes()
     }
+    #[verifier::spinoff_prover]
     fn deserialize_inner(
         bytes: &[u8],
         deserialize_items: impl Fn(SketchSlice<'_>, usize) -> Result<Vec<T>, Error>,
@@ -991,6 +993,7 @@ proof fn lemma_rows_of_map<T>(m: ReversePurgeItemHashMap<T>)
 // =====================================================================================================================
 // C11 at spec level (lemma L): the spec decoder reads back what the spec encoder wrote
 // =====================================================================================================================
+#[verifier::spinoff_prover]
 proof fn lemma_fi_roundtrip<T>(v: FiImg<T>)
   requires item_codec_law::<T>(), v.lg_cur <= v.lg_max <= 40, 3 <= v.lg_cur, v.vals.len() == v.keys.len(), v.vals.len() <= u32::MAX,
     v.vals.len() <= cap_of_lg(v.lg_cur), distinct(v.keys), vals_pos(v.vals), sum_u64(v.vals) + v.off <= v.sw,
@@ -1019,6 +1022,7 @@ proof fn lemma_fi_roundtrip<T>(v: FiImg<T>)
 // C11 over both contracts: a verified client (not real code) composing C12 (serialize_inner), lemma L and C13 (deserialize_inner)
 // for ANY item codec obeying the codec law; the i64 / u64 / String wrappers pass closures built from FrequentItemValue
 // =====================================================================================================================
+#[verifier::spinoff_prover]
 fn c11_roundtrip_fi<T: Eq + Hash + Clone>(
     a: &FrequentItemsSketch<T>,
     count_serialize_size: impl Fn(&[T]) -> usize,
